@@ -622,11 +622,12 @@ class MQTTBaseProtocol(Protocol):
         request.alarm.cancel()
         if response.resultCode == 0:
             self.state = self.CONNECTED
-            self.mqttConnectionMade()   # before the callbacks are executed ...
+            # keepalive first: the callbacks below may already disconnect()
             if request.keepalive != 0:
                 self._pingReq.keepalive = request.keepalive
                 self._pingReq.timer     = task.LoopingCall(self.ping)
                 self._pingReq.timer.start(request.keepalive)
+            self.mqttConnectionMade()   # before the callbacks are executed ...
             request.deferred.callback(response.session)
         else:
             self.state = self.IDLE
